@@ -56,6 +56,187 @@ pub fn verif_repaired_entry(m: &mut BTreeMap<BlockHash, BlockData>, slot: Slot, 
         final(m)@ == old(m)@.insert(k, *final(r)),
 { unimplemented!() }
 
+
+// ================================================================ repair.rs: response handling
+/*@ extract src/types/slice_index.rs :: struct SliceIndex
+derive Clone, Copy
+traits Eq OrdU64
+@*/
+/*@ extract src/shredder/shred_index.rs :: struct ShredIndex
+derive Clone, Copy
+traits Eq
+@*/
+/*@ extract src/crypto/merkle.rs :: struct SliceRoot
+derive
+traits Clone Eq
+@*/
+// TRUSTED opaque stand-ins
+#[verifier::external_body] pub struct DoubleMerkleProof { _p: () }
+#[verifier::external_body] pub struct PublicKey { _p: () }
+#[verifier::external_body] pub struct SliceCommitment { _p: () }
+#[verifier::external_body] pub struct IoError { _p: () }
+// the parts of a Shred read by repair.rs (src/shredder.rs): header fields, shred index, derived slice root
+pub struct SliceHeader { pub slot: Slot, pub slice_index: SliceIndex, pub is_last: bool }
+pub struct ShredPayload { pub header: SliceHeader, pub shred_index: ShredIndex }
+#[verifier::external_body] pub struct Shred { _p: () }
+impl Shred {
+    pub uninterp spec fn spec_payload(&self) -> ShredPayload;
+    pub uninterp spec fn spec_slice_root(&self) -> SliceRoot;
+    #[verifier::external_body]
+    pub fn payload(&self) -> (r: &ShredPayload) ensures *r == self.spec_payload() { unimplemented!() }
+    #[verifier::external_body]
+    pub fn slice_root(&self) -> (r: SliceRoot) ensures r == self.spec_slice_root() { unimplemented!() }
+}
+// "the leader with key pk signed exactly this shred's commitment (slot, slice, last flag, slice root)" (C12)
+pub uninterp spec fn sig_ok(shred: Shred, pk: PublicKey) -> bool;
+pub uninterp spec fn commit_matches(c: SliceCommitment, shred: Shred) -> bool;
+impl ValidatedShred {
+    pub uninterp spec fn spec_shred(&self) -> Shred;
+    // ASSUMED here, PROVED in unit `shred_auth` (C12) on the real ValidatedShred::try_new: accepted only with an identical
+    // cached commitment or a valid leader signature; without a cache accepted exactly when the signature is valid;
+    // a different cached commitment is never accepted.
+    #[verifier::external_body]
+    pub fn try_new(shred: Shred, cached_commitment: Option<&SliceCommitment>, pk: &PublicKey) -> (r: Result<ValidatedShred, ()>)
+        ensures
+            r matches Ok(v) ==> v.spec_shred() == shred
+                && ((cached_commitment matches Some(c) && commit_matches(*c, shred)) || sig_ok(shred, *pk)),
+            cached_commitment is None ==> (r is Ok <==> sig_ok(shred, *pk)),
+            (cached_commitment matches Some(c) && !commit_matches(*c, shred)) ==> r is Err,
+    { unimplemented!() }
+}
+
+/*@ extract src/repair.rs :: enum RepairRequestType
+derive
+traits Clone
+@*/
+/*@ extract src/repair.rs :: enum RepairResponse
+derive
+@*/
+
+// `RepairRequestType::hash` = SHA-256 of the serialized request.  ASSUMED injective (collision resistance + canonical encoding).
+pub uninterp spec fn spec_req_hash(r: RepairRequestType) -> Hash;
+#[verifier::external_body]
+pub broadcast proof fn axiom_req_hash_injective(a: RepairRequestType, b: RepairRequestType)
+    ensures #[trigger] spec_req_hash(a) == #[trigger] spec_req_hash(b) ==> a == b
+{}
+impl RepairRequestType {
+    #[verifier::external_body]
+    pub fn hash(&self) -> (r: Hash) ensures r == spec_req_hash(*self) { unimplemented!() }
+}
+
+// DoubleMerkleTree::check_proof / check_proof_last: thin wrappers (hash_leaf + check_hash_proof[_last]) whose meaning is
+// decided under C15; here they are uninterpreted predicates.
+pub uninterp spec fn spec_check_proof(leaf: SliceRoot, index: int, root: BlockHash, proof: DoubleMerkleProof) -> bool;
+pub uninterp spec fn spec_check_proof_last(leaf: SliceRoot, index: int, root: BlockHash, proof: DoubleMerkleProof) -> bool;
+pub struct DoubleMerkleTree;
+impl DoubleMerkleTree {
+    #[verifier::external_body]
+    pub fn check_proof(leaf: &SliceRoot, index: usize, root: &BlockHash, proof: &DoubleMerkleProof) -> (r: bool)
+        ensures r == spec_check_proof(*leaf, index as int, *root, *proof) { unimplemented!() }
+    #[verifier::external_body]
+    pub fn check_proof_last(leaf: &SliceRoot, index: usize, root: &BlockHash, proof: &DoubleMerkleProof) -> (r: bool)
+        ensures r == spec_check_proof_last(*leaf, index as int, *root, *proof) { unimplemented!() }
+}
+// "root is the slice-th leaf of the block with hash h, proved by some Merkle path"
+pub open spec fn root_proven(h: BlockHash, slice: SliceIndex, root: SliceRoot) -> bool {
+    exists|proof: DoubleMerkleProof| spec_check_proof(root, slice.0 as int, h, proof) || spec_check_proof_last(root, slice.0 as int, h, proof)
+}
+
+// The shared blockstore / pool handles (Arc<RwLock<dyn ..>>): only the two calls made by handle_response, as ghost logs.
+#[verifier::external_body] pub struct SharedBlockstore { _p: () }
+#[verifier::external_body] pub struct SharedPool { _p: () }
+#[verifier::external_body] pub struct EpochHandle { _p: () }
+#[verifier::external_body] pub struct OtherParts { _p: () }      // request_timeouts, network, sampler
+impl SharedBlockstore {
+    // the (hash, shred) pairs handed to Blockstore::add_shred_from_repair so far
+    pub uninterp spec fn stored(&self) -> Seq<(BlockHash, Shred)>;
+    // `self.blockstore.write().await.add_shred_from_repair(hash, validated).await` (R8).  Its result is ASSUMED to be what
+    // SlotBlockData::add_shred_from_repair (PROVED above) and BlockData::try_reconstruct_block (PROVED in unit blockdata)
+    // guarantee: a completed block carries the requested hash and a parent in an earlier slot.
+    #[verifier::external_body]
+    pub fn verif_add_shred_from_repair(&mut self, hash: BlockHash, shred: ValidatedShred) -> (r: Result<Option<BlockInfo>, AddShredError>)
+        ensures
+            final(self).stored() == old(self).stored().push((hash, shred.spec_shred())),
+            r matches Ok(Some(info)) ==> info.hash == hash && info.parent.0.0 < shred.spec_shred().spec_payload().header.slot.0,
+    { unimplemented!() }
+}
+impl SharedPool {
+    // `self.pool.write().await.add_block(id, parent).await` (R8); Pool::add_block asserts the parent is in an earlier slot
+    #[verifier::external_body]
+    pub fn verif_add_block(&mut self, id: BlockId, parent: BlockId)
+        requires
+            // [C14.repaired_block_parent_in_earlier_slot C10.parent_in_earlier_slot]
+            id.0.0 > parent.0.0,
+    { unimplemented!() }
+}
+impl EpochHandle {
+    pub uninterp spec fn spec_leader_pk(&self, slot: Slot) -> PublicKey;
+    // `&self.epoch_info.epoch_info().leader(*slot).pubkey` (R8)
+    #[verifier::external_body]
+    pub fn verif_leader_pk(&self, slot: Slot) -> (r: &PublicKey) ensures *r == self.spec_leader_pk(slot) { unimplemented!() }
+}
+
+
+impl RepairResponse {
+    pub open spec fn req(&self) -> RepairRequestType {
+        match *self {
+            RepairResponse::LastSliceRoot(q, _, _, _) => q,
+            RepairResponse::SliceRoot(q, _, _) => q,
+            RepairResponse::Shred(q, _) => q,
+            RepairResponse::Nack(q) => q,
+        }
+    }
+}
+impl Repair {
+    // the response is a correct answer to the request it quotes (what an honest peer sends)
+    pub open spec fn accepts(&self, resp: RepairResponse) -> bool {
+        match resp {
+            RepairResponse::LastSliceRoot(q, l, root, proof) => q matches RepairRequestType::LastSliceRoot(b) && spec_check_proof_last(root, l.0 as int, b.1, proof),
+            RepairResponse::SliceRoot(q, root, proof) => q matches RepairRequestType::SliceRoot(b, sl) && spec_check_proof(root, sl.0 as int, b.1, proof),
+            RepairResponse::Shred(q, shred) => self.good_shred(q, shred),
+            RepairResponse::Nack(q) => true,
+        }
+    }
+}
+pub const TOTAL_SHREDS: usize = 64;
+
+// TRUSTED: the derived orders on the two key types are lawful total orders
+#[verifier::external_body]
+pub broadcast proof fn axiom_root_key_obeys_cmp_laws()
+    ensures #[trigger] vstd::laws_cmp::obeys_cmp::<((Slot, DoubleMerkleRoot), SliceIndex)>()
+{}
+
+// struct Repair<N: Network> (src/repair.rs) with the two maps kept and everything else opaque
+pub struct Repair {
+    pub blockstore: SharedBlockstore,
+    pub pool: SharedPool,
+    pub slice_roots: BTreeMap<(BlockId, SliceIndex), SliceRoot>,
+    pub outstanding_requests: BTreeMap<Hash, RepairRequestType>,
+    pub other: OtherParts,
+    pub epoch_info: EpochHandle,
+}
+
+// ---------------------------------------------------------------- C14 specification for the requester side
+impl Repair {
+    // every kept slice root was proved under the block hash it is kept for
+    pub open spec fn roots_ok(&self) -> bool {
+        forall|b: BlockId, s: SliceIndex| #[trigger] self.slice_roots@.contains_key((b, s)) ==> root_proven(b.1, s, self.slice_roots@[(b, s)])
+    }
+    // requests are filed under their own hash, and a shred is only requested once its slice root is known
+    pub open spec fn reqs_ok(&self) -> bool {
+        &&& forall|h: Hash| #[trigger] self.outstanding_requests@.contains_key(h) ==> spec_req_hash(self.outstanding_requests@[h]) == h
+        &&& forall|h: Hash| #[trigger] self.outstanding_requests@.contains_key(h) ==>
+                (self.outstanding_requests@[h] matches RepairRequestType::Shred(b, s, i) ==> self.slice_roots@.contains_key((b, s)))
+    }
+    pub open spec fn inv(&self) -> bool { self.roots_ok() && self.reqs_ok() }
+    // what a correct answer to request `q` looks like
+    pub open spec fn good_shred(&self, q: RepairRequestType, shred: Shred) -> bool {
+        q matches RepairRequestType::Shred(b, s, i) && shred.spec_payload().header.slot == b.0 && shred.spec_payload().header.slice_index == s
+            && shred.spec_payload().shred_index == i && self.slice_roots@.contains_key((b, s)) && shred.spec_slice_root() == self.slice_roots@[(b, s)]
+            && sig_ok(shred, self.epoch_info.spec_leader_pk(b.0))
+    }
+}
+
 // ---------------------------------------------------------------- C14 specification (from the statement)
 impl SlotBlockData {
     // "a block obtained through repair is stored ... under a block identifier only if its content hashes to exactly
@@ -68,7 +249,96 @@ impl SlotBlockData {
 
 pub mod code {
 use super::*;
-broadcast use super::axiom_new_block_data, super::axiom_DoubleMerkleRoot_obeys_cmp_laws;
+broadcast use super::axiom_new_block_data, super::axiom_DoubleMerkleRoot_obeys_cmp_laws, super::axiom_Hash_obeys_cmp_laws, super::axiom_root_key_obeys_cmp_laws, super::axiom_req_hash_injective;
+
+
+impl SliceIndex {
+/*@ extract src/types/slice_index.rs :: impl SliceIndex/fn inner
+ret r
+ensures
+        r == self.0,
+@*/
+}
+#[verifier::external_body]
+pub fn verif_clone_block_id(b: &BlockId) -> (r: BlockId)
+    ensures r == *b
+{ unimplemented!() }
+
+impl RepairResponse {
+/*@ extract src/repair.rs :: impl RepairResponse/fn request_type
+props C14
+ret r
+ensures
+        *r == self.req(),
+@*/
+}
+
+impl Repair {
+    // ASSUMED contract of Repair::send_request (sockets, timers, random peers): the request is filed under its hash
+    // (outstanding_requests.insert(hash, req_type)); nothing else that handle_response relies on changes.
+    #[verifier::external_body]
+    pub fn send_request(&mut self, req_type: RepairRequestType) -> (r: Result<(), IoError>)
+        ensures
+            final(self).outstanding_requests@ == old(self).outstanding_requests@.insert(spec_req_hash(req_type), req_type),
+            final(self).slice_roots@ == old(self).slice_roots@,
+            final(self).blockstore.stored() == old(self).blockstore.stored(),
+            final(self).epoch_info == old(self).epoch_info,
+    { unimplemented!() }
+
+/*@ extract src/repair.rs :: impl Repair<N>/fn handle_response
+props C14
+elide-async
+rewrite*[R9] `block_id.clone()` => `verif_clone_block_id(block_id)`
+rewrite[R4] `for slice in last_slice.until() {` => `let mut verif_s: usize = 0; while verif_s <= last_slice.inner() { let slice = SliceIndex(verif_s); verif_s += 1;`
+rewrite[R4] `for shred_index in ShredIndex::all() {` => `let mut verif_x: usize = 0; while verif_x < TOTAL_SHREDS { let shred_index = ShredIndex(verif_x); verif_x += 1;`
+rewrite[R8] `&self.epoch_info.epoch_info().leader(*slot).pubkey` => `self.epoch_info.verif_leader_pk(*slot)`
+rewrite[R8] `self .blockstore .write() .add_shred_from_repair(` => `self.blockstore.verif_add_shred_from_repair(`
+rewrite[R8] `self.pool .write() .add_block(` => `self.pool.verif_add_block(`
+requires
+        old(self).inv(),
+        // type invariant of SliceIndex (enforced at deserialization, C19): below MAX_SLICES_PER_BLOCK
+        response matches RepairResponse::LastSliceRoot(_, l, _, _) ==> l.0 < 1024,
+ensures
+        final(self).inv(),
+        final(self).epoch_info == old(self).epoch_info,
+        // [C14.unsolicited_response_changes_nothing]
+        !old(self).outstanding_requests@.contains_key(spec_req_hash(response.req())) ==>
+            final(self).slice_roots@ == old(self).slice_roots@ && final(self).outstanding_requests@ == old(self).outstanding_requests@
+            && final(self).blockstore.stored() == old(self).blockstore.stored(),
+        // [C14.only_validated_matching_shreds_reach_the_blockstore]
+        final(self).blockstore.stored() != old(self).blockstore.stored() ==>
+            (response matches RepairResponse::Shred(q, shred) && old(self).good_shred(q, shred)
+             && (q matches RepairRequestType::Shred(b, sl, i) && final(self).blockstore.stored() == old(self).blockstore.stored().push((b.1, shred)))),
+        // [C14.correct_shred_is_stored]
+        (old(self).outstanding_requests@.contains_key(spec_req_hash(response.req())) && (response matches RepairResponse::Shred(q, shred) && old(self).good_shred(q, shred)))
+            ==> final(self).blockstore.stored().len() == old(self).blockstore.stored().len() + 1,
+        // [C14.proven_root_is_recorded]
+        (old(self).outstanding_requests@.contains_key(spec_req_hash(response.req())) && old(self).accepts(response)) ==>
+            (response matches RepairResponse::LastSliceRoot(q, l, root, proof) ==> (q matches RepairRequestType::LastSliceRoot(b) && final(self).slice_roots@.contains_key((b, l)) && final(self).slice_roots@[(b, l)] == root)),
+        (old(self).outstanding_requests@.contains_key(spec_req_hash(response.req())) && old(self).accepts(response)) ==>
+            (response matches RepairResponse::SliceRoot(q, root, proof) ==> (q matches RepairRequestType::SliceRoot(b, sl) && final(self).slice_roots@.contains_key((b, sl)) && final(self).slice_roots@[(b, sl)] == root)),
+        // [C14.invalid_response_leaves_request_outstanding]
+        (old(self).outstanding_requests@.contains_key(spec_req_hash(response.req())) && !old(self).accepts(response)) ==>
+            final(self).outstanding_requests@.contains_key(spec_req_hash(response.req())),
+before `let request_hash = response.request_type().hash();`
+        let ghost pre = *old(self);
+        let ghost resp0 = response;
+loop 0
+        invariant
+            pre == *old(self) && pre.inv() && self.inv(),
+            last_slice.0 < 1024 && verif_s <= last_slice.0 + 1,
+            self.slice_roots@ == pre.slice_roots@.insert((*block_id, last_slice), root),
+            self.blockstore.stored() == pre.blockstore.stored() && self.epoch_info == pre.epoch_info,
+        decreases last_slice.0 + 1 - verif_s,
+loop 1
+        invariant
+            pre == *old(self) && pre.inv() && self.inv(),
+            verif_x <= TOTAL_SHREDS,
+            self.slice_roots@ == pre.slice_roots@.insert((*block_id, slice), root),
+            self.blockstore.stored() == pre.blockstore.stored() && self.epoch_info == pre.epoch_info,
+        decreases TOTAL_SHREDS - verif_x,
+@*/
+}
 
 impl SlotBlockData {
 /*@ extract src/consensus/blockstore/slot_block_data.rs :: impl SlotBlockData/fn add_shred_from_repair
